@@ -385,7 +385,12 @@ bool BuildLog::Recompact(const std::string& path, const BuildLogUser& user,
   for (StringPiece output : dead_outputs)
     entries_.erase(output);
 
-  fclose(f);
+  // The last bytes are written when the stream is closed; a failure there
+  // (disk full) must not replace the log by a truncated copy.
+  if (fclose(f) == EOF) {
+    *err = strerror(errno);
+    return false;
+  }
 
   return ReplaceContent(path, temp_path, err);
 }
@@ -433,7 +438,10 @@ bool BuildLog::Restat(const StringPiece path,
     }
   }
 
-  fclose(f);
+  if (fclose(f) == EOF) {
+    *err = strerror(errno);
+    return false;
+  }
 
   return ReplaceContent(path.AsString(), temp_path, err);
 }
